@@ -69,6 +69,17 @@ class C14(Prop):
             m = sum(e[j] * sc * np.outer(q[:, j], q[:, j]) for j in range(3))
             m = 0.5 * (m + m.T)
             yield {'kind': 'eig', 'm': [[float(x) for x in r] for r in m], 'rep': True}
+        # eigen-decomposition of several six-vectors in one call (1..7 columns; six is the shape-ambiguous size)
+        for i in range(40 if tier == 'quick' else 1200):
+            nt = rng.choice([1, 2, 3, 5, 6, 6, 7])
+            ms = []
+            for _t in range(nt):
+                q, _ = np.linalg.qr(np.array([[rng.gauss(0, 1) for _ in range(3)] for _ in range(3)]))
+                e = rng.choice([[rng.gauss(0, 1) for _ in range(3)], [1.0, 0.0, -1.0], [2.0, -1.0, -1.0], [1.0, 1.0, -0.5]])
+                m = sum(e[j] * np.outer(q[:, j], q[:, j]) for j in range(3))
+                m = 0.5 * (m + m.T)
+                ms.append([[float(x) for x in r] for r in m])
+            yield {'kind': 'eigbatch', 'ms': ms}
         # lune coordinates -> eigenvalues -> lune coordinates, for arrays of 1..6 points
         for i in range(60 if tier == 'quick' else 1500):
             npt = rng.choice([1, 2, 3, 3, 4, 6])
@@ -84,6 +95,15 @@ class C14(Prop):
             T, N, P, E = cv.MT33_TNPE(np.matrix(case['m']))
             return {'T': fl(T, np), 'N': fl(N, np), 'P': fl(P, np), 'E': [float(np.real(x)) for x in np.asarray(E).flatten()],
                     'complex': any(np.iscomplexobj(x) for x in (T, N, P, E))}
+        if k == 'eigbatch':
+            r2 = math.sqrt(2)
+            cols = [[m[0][0], m[1][1], m[2][2], r2 * m[0][1], r2 * m[0][2], r2 * m[1][2]] for m in case['ms']]
+            arr = np.array(cols, dtype=float).T
+            T, N, P, E = cv.MT6_TNPE(arr.copy())
+            res = {'shapes': [list(np.asarray(x).shape) for x in (T, N, P, E)], 'complex': any(np.iscomplexobj(x) for x in (T, N, P, E))}
+            if res['shapes'] == [[3, len(cols)]] * 4:
+                res['cols'] = [[[float(np.real(np.asarray(x)[i, j])) for i in range(3)] for x in (T, N, P, E)] for j in range(len(cols))]
+            return res
         if k == 'spectrum':
             e = np.array(case['e'])
 
@@ -133,7 +153,7 @@ class C14(Prop):
     # ------------------------------------------------------------------ model
     def requests(self, case, impl):
         k = case['kind']
-        if k == 'eig':
+        if k in ('eig', 'eigbatch'):
             return []
         if k == 'spectrum':
             e = case['e']
@@ -224,6 +244,21 @@ class C14(Prop):
                         out.append(('eig-rebuild', 'axes and eigenvalues do not rebuild the tensor (entry %d,%d: %r vs %r)' % (i, j, rb, case['m'][i][j]), None))
                         return out
             return out
+        if k == 'eigbatch':
+            n = len(case['ms'])
+            if impl['shapes'] != [[3, n]] * 4 or impl['complex']:
+                return [('eig-batch', 'MT6_TNPE on %d six-vectors returned arrays of shapes %r (complex: %s)' % (n, impl['shapes'], impl['complex']), None)]
+            for j, (m, (T, N, P, E)) in enumerate(zip(case['ms'], impl['cols'])):
+                sc = max(1e-300, max(abs(x) for r in m for x in r))
+                for a_ in range(3):
+                    for b_ in range(3):
+                        rb = E[0] * T[a_] * T[b_] + E[1] * N[a_] * N[b_] + E[2] * P[a_] * P[b_]
+                        if abs(rb - m[a_][b_]) > 1e-9 * sc:
+                            return [('eig-batch', 'MT6_TNPE on %d six-vectors: the axes and eigenvalues of column %d do not rebuild that tensor (entry %d,%d: %r vs %r)'
+                                     % (n, j, a_, b_, rb, m[a_][b_]), None)]
+                if not (E[0] >= E[1] and E[1] >= E[2]):
+                    return [('eig-batch', 'MT6_TNPE on %d six-vectors: eigenvalues of column %d not ordered: %r' % (n, j, E), None)]
+            return []
         if k == 'spectrum':
             b = impl['base']
             names = ['gamma', 'delta', 'tau', 'k', 'u', 'v']
@@ -283,7 +318,14 @@ class C14(Prop):
                 out.append(('cdc-roundtrip', 'crack+DC parameters (%r, %r) came back as %r' % (a, nu, impl['back']), None))
         elif k == 'potency':
             # C . D = M  (Mandel / Voigt order)
-            C = [impl['cvoigt'][6 * i:6 * i + 6] for i in range(6)]
+            # Mandel matrix built here from the 21 elements (row-wise upper triangle of the Voigt matrix), independently of c21_cvoigt
+            V = [[0.0] * 6 for _ in range(6)]
+            it = iter(impl['c21'])
+            for i in range(6):
+                for j in range(i, 6):
+                    V[i][j] = V[j][i] = next(it)
+            r2_ = math.sqrt(2)
+            C = [[V[i][j] * (1.0 if (i < 3 and j < 3) else 2.0 if (i >= 3 and j >= 3) else r2_) for j in range(6)] for i in range(6)]
             perm = [0, 1, 2, 5, 4, 3]
             d = [impl['d6'][p] for p in perm]
             mm = [case['m'][p] for p in perm]
